@@ -186,7 +186,16 @@ impl<'a> PGen<'a> {
     }
 
     fn iterable(&mut self) -> (String, &'static str) {
-        match self.rng.below(12) {
+        match self.rng.below(20) {
+            // maps and arrays that only exist while rendering
+            12 => (format!("{{\"a\": {}, \"z\": {}, \"m\": n1}}", self.any_scalar(1), self.any_scalar(1)), "map"),
+            13 => (format!("items | group_by(attribute=\"{}\")", self.pick(&["name", "id"])), "map"),
+            14 => (format!("{} | {}", self.pick(&["m", "mm.a"]), self.pick(&["keys", "values", "pairs"])), "arr"),
+            15 => (format!("[{} for q in {} if q]", self.pick(&["q", "q ~ \"!\"", "[q]"]), self.pick(&["xs", "ns", "s2"])), "arr"),
+            16 => (format!("[...{}, {}]", self.pick(&["xs", "ns", "empty"]), self.any_scalar(1)), "arr"),
+            17 => (format!("{{...m, \"k9\": {}}}", self.any_scalar(1)), "map"),
+            18 => (format!("range(start={}, end={}, step_by={})", self.rng.below(3), 2 + self.rng.below(5), 1 + self.rng.below(2)), "arr"),
+            19 => ("__tera_context".into(), "map"),
             0 | 1 => (self.pick(&["xs", "ns", "items", "mm.a.list", "empty"]).to_string(), "arr"),
             2 => ("s2".into(), "str"),
             3 => (self.pick(&["m", "mm.a"]).to_string(), "map"),
@@ -212,7 +221,18 @@ impl<'a> PGen<'a> {
             };
         }
         let safe = if self.allow_safe && self.rng.chance(1, 8) { " | safe" } else { "" };
-        match self.rng.below(10) {
+        match self.rng.below(13) {
+            // every other built-in filter, optional chaining and functions show up in generated programs too
+            10 => format!(
+                "{{{{ {} }}}}",
+                self.pick(&[
+                    "m | keys", "mm.a | pairs", "m | values", "items | group_by(attribute=\"id\")", "xs | first", "xs | last", "ns | nth(n=1)", "s1 | split(pat=\" \")", "n1 | float", "\"12\" | int",
+                    "f1 | round", "f1 | round(method=\"ceil\", precision=1)", "s1 | wordcount", "s1 | indent", "s2 | newlines_to_br", "n1 | pluralize", "m | get(key=\"k1\")", "m | get(key=\"zz\", default=s1)",
+                    "s1 | escape_xml", "s1 | trim_start", "s1 | trim_end(pat=\"s\")", "xs | sort | unique | join(sep=\"/\")", "items | sort(attribute=\"name\") | first", "s2 | length", "empty | first", "ns | reverse | last",
+                ])
+            ),
+            11 => format!("{{{{ {} }}}}", self.pick(&["mm?.a?.zz | default(value=\"d\")", "u1?.x is defined", "mm.a?.list?[0]", "none1?.z is undefined", "m?[\"k1\"]", "u1?[0] | default(value=s1)", "range(end=3)", "[...ns, ...xs] | length", "{...m} | length"])),
+            12 => format!("{{{{ [q for q in {} if q != {}] }}}}", self.pick(&["xs", "ns"]), self.any_scalar(1)),
             // both sinks: expressions (WriteTop) and bare variable paths (fused WritePath)
             0 | 1 => format!("{{{{ {} }}}}", self.pick(&["s1", "s2", "n1", "f1", "b1", "xs", "m", "ns"])),
             2 | 3 => format!("{{{{ {} }}}}", self.pick(&["m.k1", "mm.a.b", "mm.a.n", "mm.a.list", "mm.a"])),
